@@ -72,10 +72,14 @@ def rewrite(src):
             continue
         # the ticker of the pool's own goroutine fires when the schedule says so
         line = line.replace("time.NewTicker(", "vcoop.NewTicker(")
-        m = re.match(r"^\s*(\w+)\.keysLock\.Lock\(\)\s*$", line)
+        m = re.match(r"^\s*([\w.]+)\.(R?)Lock\(\)\s*$", line)
         if m:
-            hit("lock")
-            out.append('%svcoop.Lock(&%s.keysLock, "%s.lock")' % (ind, m.group(1), fn))
+            # every acquisition of a lock (keysLock; whatever lock a changed tree has): sync.Mutex, or either side of a
+            # sync.RWMutex — reader acquisitions are schedulable points of their own (kind "rlock": several readers
+            # together, writers exclusive).  Method values: the lock may be a value or a pointer field.
+            kind = "rlock" if m.group(2) else "lock"
+            hit(kind)
+            out.append('%svcoop.LockF("%s.%s", %s.Try%sLock, %s.%sLock)' % (ind, fn, kind, m.group(1), m.group(2), m.group(1), m.group(2)))
             continue
         m = re.match(r"^\s*for (\w+), (\w+) := range p\.keys \{\s*$", line)
         if m:
@@ -256,6 +260,10 @@ def run(c):
         "the pool's ticker goroutine: a tick of its time.Ticker is taken only while the goroutine is parked in the select of cleanUpTick (Op.sweep; a tick that arrives while it is inside CleanUp is dropped — time.Ticker buffers one, "
         "which is the same as firing when it is back); the send on the unbuffered cleanupStop completes only while that goroutine is parked in the select (St.tkTask = none)",
     ]
+    c.assumptions += [
+        "a Target.Start refused by the message limits makes no pool call (the `mx` model replays r<j> as a no-op); remoteDelivery.Abort has the duties of Commit towards the pool; "
+        "the limits themselves (internal/limits) are C11's subject — here they are the real ones, configured so that only the Starts the history asks to be refused ever wait",
+    ]
     c.trusted_base += [
         "checks/c19.py rewriter (textual insertion of scheduler yields into pool.go at check time) and harness/internal/verifshim/vcoop (cooperative scheduler)",
         "checks/c19.py reclock (time.Now() of pool.go and of the remote-target files that stamp mxConn.lastUseAt is vcoop's manual clock in the overlay), the scripted go-smtp servers of the remote-target harness",
@@ -275,6 +283,11 @@ def run(c):
         "parked in its select): the tick is a schedulable event at every point of Close / Get / Return, also while a connection's Close() is in progress; the stop signal on the unbuffered cleanupStop is a rendezvous "
         "that completes only while the ticker goroutine is blocked in its select; liveness: every case is run until every goroutine has finished, a state in which no goroutine can move is C19/shutdown-blocked (somebody is inside Close) or C19/deadlock; "
         "mx: more overlapping deliveries to one destination than conn_max_idle_count (style overflow), Close() calls counted per mxConn object (C19/closed-twice), panics of the pool's own goroutines (C19/panic); "
+        "mx: the target runs with a real limits.Group (all/ip concurrency 64, source concurrency 1): Starts refused by the message limits (op r<j>: source or global limit not obtained, context cancelled / past its deadline before or during the wait) "
+        "at any point of 30 % of the histories, deliveries aborted instead of committed (op a); shutdown has a liveness obligation — Target.Close() returns once every operation of the history has returned (C19/shutdown-blocked, real-time guard 10 s) — "
+        "and afterwards every connection that was returned to the live pool has been closed on the server side (C19/returned-conn-never-closed); "
+        "run: lock acquisitions of either side of a sync.RWMutex are schedulable points (readers together, writers exclusive), scenario fresh-key (2-3 Returns to a key without bucket interleaved one synchronisation point at a time, then the key is asked for again / shutdown), "
+        "an idle connection in a bucket that is not in the map of the live pool at quiescence is C19/conn-lost; "
         "distinct = distinct (case, schedule) lines",
         explanation="theorems over all schedules, any number of workers/keys; model tied to pool.go by step-level lockstep runs of the real code, and to the real connection type by sequential runs of the real remote target; "
         "independent Go monitors on connection objects (own records of owner, key and time of the last Return, last use; what the scripted servers saw)",
